@@ -201,7 +201,14 @@ fn gen_kernel_step(rng: &mut Rng, s: &State, flavour: Flavour) -> Option<Step> {
 pub fn gen_init(rng: &mut Rng, dim: u8, flavour: Flavour, tier: Tier) -> State {
     match flavour {
         Flavour::Remesh => {
-            let kinds = if rng.chance(0.5) { 0 } else { (1 << K_VA) | (1 << K_EA) | (1 << K_FA) };
+            // no anchors / the three anchor kinds / edge and face anchors only (at this commit
+            // `cut_inner_edge` cannot succeed when VertexAnchor is registered: the new vertex has
+            // no anchor while it is sewn in and VertexAnchor has no `merge_incomplete`)
+            let kinds = match rng.below(5) {
+                0 | 1 => 0,
+                2 | 3 => (1 << K_VA) | (1 << K_EA) | (1 << K_FA),
+                _ => (1 << K_EA) | (1 << K_FA),
+            };
             let max_n = if tier == Tier::Thorough { 4 } else { 3 };
             let mut s = kernel_state(rng, kinds, true, max_n);
             if rng.chance(0.8) {
@@ -354,6 +361,7 @@ fn run_one(cfg: &Cfg, tier: Tier, i: u64, seed: u64, c: &mut Counters) -> Vec<Vi
             c.add("kernel_success_checked", p.k_checked_success);
             c.add("kernel_refusal_checked", p.k_checked_refusal);
             c.add("kernel_must_succeed_cases", p.k_must_succeed);
+            c.add("probe_kernel_ok_on_edge_between_differently_anchored_faces", p.k_interface_edge);
             for (k, v) in &p.k_ok {
                 c.add(&format!("kernel_ok_{k}"), *v);
             }
@@ -406,6 +414,14 @@ fn run_one(cfg: &Cfg, tier: Tier, i: u64, seed: u64, c: &mut Counters) -> Vec<Vi
         }
         Outcome::Deadlock(_) | Outcome::StepBound | Outcome::Livelock => {
             c.inc("history_blocked");
+            let last = rec.lock().unwrap().last().cloned();
+            c.note("history_blocked", || format!("seed {seed}: last step {last:?}"));
+            if std::env::var("VERIF_DUMP_BLOCKED").is_ok() {
+                let mut hh = h.clone();
+                hh.steps = rec.lock().unwrap().clone();
+                let v = Violation { property: cfg.prop.into(), class: "blocked".into(), message: String::new(), seed, run: i, payload: serde_json::to_value(Payload { flavour, history: hh }).unwrap(), known: None };
+                let _ = std::fs::write(format!("/tmp/blocked-{seed}.json"), serde_json::to_string(&v).unwrap());
+            }
         }
     }
     out
